@@ -5,6 +5,7 @@ import IvpModel.Driver.LuDrv
 import IvpModel.Driver.PyDrv
 import IvpModel.Driver.RadauDrv
 import IvpModel.Driver.BdfDrv
+import IvpModel.Driver.ContDrv
 
 def main (args : List String) : IO UInt32 := do
   let stdin ← IO.getStdin
@@ -15,6 +16,9 @@ def main (args : List String) : IO UInt32 := do
       return 0
   | ["lu"] =>
       for o in Drv.Lu.run lines do IO.println o
+      return 0
+  | ["cont"] =>
+      for o in Drv.Cont.run lines do IO.println o
       return 0
   | ["bdf"] =>
       for o in Drv.Bdf.run lines do IO.println o
